@@ -436,6 +436,26 @@ func runC13(em *vEmitter) {
 		}
 		c13DecReq(em, randomFragmentation(r, s), "dec/random-frag")
 	}
+	// several long fields in one request (every field is within the limit, the message is not small):
+	// read whole, byte-wise, and in random fragments - the decoder's internal buffer has to move
+	for _, ls := range [][4]int{{250, 250, 4, 11}, {256, 256, 256, 256}, {256, 1, 1, 1}, {200, 100, 0, 0}, {255, 255, 0, 255}, {130, 130, 130, 130}, {1, 256, 256, 3}} {
+		var b bytes.Buffer
+		for fi, l := range ls {
+			b.Write([]byte{byte(l >> 8), byte(l)})
+			b.Write(bytes.Repeat([]byte{byte('a' + fi)}, l))
+		}
+		s := b.Bytes()
+		c13DecReq(em, []vEv{{s, 1}}, "dec/long-fields/whole")
+		var bytewise []vEv
+		for _, c := range s {
+			bytewise = append(bytewise, vEv{[]byte{c}, 0})
+		}
+		bytewise = append(bytewise, vEv{nil, 1})
+		c13DecReq(em, bytewise, "dec/long-fields/byte-wise")
+		for k := 0; k < 6; k++ {
+			c13DecReq(em, randomFragmentation(r, s), "dec/long-fields/random-frag")
+		}
+	}
 	// long runs of empty reads: 99, 100, 101, 102 consecutive (0, nil)
 	for _, k := range []int{99, 100, 101, 102} {
 		s := validRequestBytes(r)
